@@ -357,6 +357,67 @@ theorem visible_text_plain (e : Env) (cfg : Cfg) (chunks : List Str) (s : Str) (
   obtain ⟨lines, h1, h2, h3⟩ := ircWrap_plain chunks s1 hplain hcontract (allowed - suffixReserve (blen s1)) (by omega)
   exact ⟨lines, h2, h3, reply_chunked e cfg chunks s allowed s1 hprep (by omega) lines h1⟩
 
+/-! ## reply.mores.maximum -/
+
+/-
+Full statement ("up to the configured maximum number of chunks"): a chunked reply has at most
+`reply.mores.maximum` messages,
+
+    ∀ e cfg chunks s now stored, reply e cfg chunks s = .sent now stored →
+      now.length + (stored.getD []).length ≤ cfg.maximumMores
+
+FALSE on the pinned tree (`chunk_count_counterexample`, known finding C12-maximum-counts-characters): the
+text is cut to `allowedLength * maximum` *characters*, a chunk holds `allowedLength - reserve` *bytes*.
+What does hold: the text that is split has at most `allowedLength * maximum` characters, hence the
+number of messages is bounded by 32 × that.
+-/
+theorem chunk_count_partial (e : Env) (cfg : Cfg) (chunks : List Str) (s : Str) (allowed : Nat) (s1 : Str)
+    (hauto : cfg.moresLength = 0)
+    (hprep : prepare e cfg s = some (allowed, s1, false))
+    (hcontract : chunks.flatten = munge s1) (hne : ∀ c ∈ chunks, c ≠ [])
+    (h4 : suffixReserve (blen s1) + (parse s1).maxSize + 4 ≤ allowed) :
+    ∃ now stored, reply e cfg chunks s = .sent now stored ∧
+      s1.length ≤ allowed * cfg.maximumMores ∧
+      now.length + (stored.getD []).length ≤ max 1 (32 * (allowed * cfg.maximumMores)) := by
+  obtain ⟨hc, hk, ht⟩ := consts_ok
+  obtain ⟨_, hs1, _⟩ := prepare_auto ht hc e cfg s allowed s1 false hauto hprep
+  have hlen4 : (parse s1).maxSize + 4 ≤ allowed - suffixReserve (blen s1) := by omega
+  obtain ⟨raw, hraw, hwrap, _, _⟩ := ircWrap_struct chunks s1 _ hlen4
+  have hcount : (processLines none raw).length ≤ max 1 (8 * blen s1) := by
+    rw [processLines_length]
+    exact raw_length_le chunks s1 hcontract hne _ (by omega) raw hraw
+  have hrep := reply_chunked e cfg chunks s allowed s1 hprep (by omega) _ hwrap
+  have hl : s1.length ≤ allowed * cfg.maximumMores := by rw [hs1]; exact truncate_length _ _ _
+  refine ⟨_, _, hrep, hl, ?_⟩
+  have hb := blen_le_four_length s1
+  have hd := deliveryOrder_length e (processLines none raw)
+  split
+  · simp only [Option.getD_none, List.length_nil, List.length_take]; omega
+  · simp only [Option.getD_some, List.length_reverse, List.length_take, List.length_drop]; omega
+
+def cexEnv : Env :=
+  { botPrefix := "test!u@h".toList, nick := "alice".toList, msgTarget := "#chan".toList,
+    msgIsChannel := true, to := none, pubTo := false, pubNick := false, pubMsgTarget := true,
+    notice := none, priv := none, prefixNick := none, stripCtcp := true, confWithNotice := false,
+    confInPrivate := false, confWithNickPrefix := true, confNoticeWhenPrivate := true }
+def cexCfg : Cfg := { moresLength := 60, maximumMores := 2, instant := 1, mores := true }
+
+/-- `reply.mores.length = 60`, `maximum = 2`, reply `'é' * 200`: 7 messages. -/
+theorem chunk_count_counterexample :
+    ¬ (∀ e cfg chunks s now stored, reply e cfg chunks s = .sent now stored →
+        now.length + (stored.getD []).length ≤ cfg.maximumMores) := by
+  intro h
+  have hv : ∃ now stored, reply cexEnv cexCfg [List.replicate 120 'é'] (List.replicate 200 'é') = .sent now stored ∧
+      now.length + (stored.getD []).length = 7 := by
+    refine ⟨(match reply cexEnv cexCfg [List.replicate 120 'é'] (List.replicate 200 'é') with
+              | .sent n _ => n | _ => []),
+            (match reply cexEnv cexCfg [List.replicate 120 'é'] (List.replicate 200 'é') with
+              | .sent _ st => st | _ => none), ?_, ?_⟩ <;> decide +kernel
+  obtain ⟨now, stored, h1, h2⟩ := hv
+  have := h _ _ _ _ _ _ h1
+  simp only [cexCfg] at this
+  omega
+
 /-! ## non-vacuity: a concrete chunked reply meets the hypotheses of the theorems above -/
 
 def exEnv : Env :=
